@@ -1025,6 +1025,151 @@ def f():
     def make(n):
         return [Local(i) for i in range(n)]
     return [o.twice() for o in make(3)], Local.k, isinstance(make(1)[0], Local)
+---
+import dataclasses as _dataclasses
+from dataclasses import dataclass as _dataclass, field as _field
+from typing import NamedTuple as _NamedTuple
+from enum import Enum as _Enum, IntEnum as _IntEnum
+import enum as _enum
+@_dataclass(frozen=True)
+class _Seg:
+    x1: float
+    x2: float
+    length: float = _field(init=False)
+    def __post_init__(self):
+        object.__setattr__(self, 'length', abs(self.x2 - self.x1))
+    def __bool__(self):
+        return self.length != 0
+@_dataclasses.dataclass
+class _Stack:
+    items: list = _dataclasses.field(default_factory=list)
+    count: int = 0
+    def push(self, v):
+        self.items.append(v)
+        self.count += 1
+class _Pair(_NamedTuple):
+    a: int
+    b: int = 5
+    def total(self):
+        return self.a + self.b
+class _Fold(_Enum):
+    ALL = True
+    ANY = False
+    @classmethod
+    def of(cls, mode):
+        return cls.ALL if mode == 1 else cls.ANY
+    @property
+    def neutral(self):
+        return self.value
+    def step(self, acc, v):
+        return (acc and v) if self is _Fold.ALL else (acc or v)
+class _Kind(_Enum):
+    ENU = ('E', 'N', 1)
+    GEO = ('lon', 'lat', 2)
+    def __init__(self, first, second, digits):
+        self.first = first
+        self.second = second
+        self.digits = digits
+    def labels(self):
+        return self.first + '/' + self.second
+class _Dir(_enum.IntEnum):
+    BACK = -1
+    FWD = 1
+class _Auto(_Enum):
+    P = _enum.auto()
+    Q = _enum.auto()
+def f():
+    s = _Seg(1.0, 4.0)
+    st = _Stack()
+    st.push(3)
+    f1 = _Fold.of(1)
+    return (s.length, bool(s), bool(_Seg(2.0, 2.0)), [fl.name for fl in _dataclasses.fields(s)], st.items, st.count, _Stack().items, _Pair(1).total(), tuple(_Pair(2, 3)),
+            f1 is _Fold.ALL, f1.neutral, f1.step(True, False), _Fold.of(0).step(False, True), [m.name for m in _Fold], _Fold(False) is _Fold.ANY, repr(_Fold.ALL), str(_Fold.ANY),
+            _Kind.GEO.labels(), _Kind.ENU.digits, _Kind.GEO.value, [k.first for k in _Kind], 3 * _Dir.BACK, _Dir.FWD == 1, _Dir(1) is _Dir.FWD, _Auto.P.value, _Auto.Q.value,
+            {_Fold.ALL: 'x'}[_Fold.ALL], _Fold.ALL == _Fold.ALL, _Fold.ALL == True, _dataclasses.replace(st, count=9).count, _dataclasses.astuple(_Seg(0.0, 2.0)))
+---
+class _Heap:
+    def __init__(self):
+        self.data = []
+    def push(self, v):
+        self.data.append(v)
+        self.data.sort()
+    def pop_smallest(self):
+        return self.data.pop(0)
+    def __len__(self):
+        return len(self.data)
+def f():
+    class Frontier:
+        def __init__(self, inner):
+            self._inner = inner
+            self.pushed = 0
+        def __getattr__(self, name):
+            return getattr(self._inner, name)
+        def __len__(self):
+            return len(self._inner)
+        def push(self, v):
+            self.pushed += 1
+            self._inner.push(v)
+    fr = Frontier(_Heap())
+    for v in (5, 2, 9):
+        fr.push(v)
+    out = []
+    while fr:
+        out.append(fr.pop_smallest())
+    return out, fr.pushed, fr.data, len(fr)
+---
+class _Template:
+    def _ranks(self, n):
+        raise NotImplementedError
+    def _combine(self, xs, i):
+        raise NotImplementedError
+    def run(self, xs):
+        return [self._combine(xs, i) for i in self._ranks(len(xs))]
+class _Backward:
+    def _ranks(self, n):
+        return range(1, n)
+    def _combine(self, xs, i):
+        return xs[i] - xs[i - 1]
+class Diff(_Backward, _Template):
+    pass
+class Twice(_Template):
+    def _ranks(self, n):
+        return range(n)
+    def _combine(self, xs, i):
+        return 2 * xs[i]
+_REGISTRY = []
+def _register(tag):
+    def deco(fn):
+        _REGISTRY.append((tag, fn))
+        return fn
+    return deco
+@_register('a')
+def _first(v):
+    return v + 1
+@_register('b')
+def _second(v):
+    return v * 10
+class Table:
+    __HANDLERS = []
+    def _handles(table, kind):
+        def deco(fn):
+            table.append((kind, fn))
+            return fn
+        return deco
+    @_handles(__HANDLERS, int)
+    def __byInt(self, v):
+        return 'int %d' % v
+    @_handles(__HANDLERS, str)
+    def __byStr(self, v):
+        return 'str ' + v
+    def dispatch(self, v):
+        for kind, fn in Table.__HANDLERS:
+            if isinstance(v, kind):
+                return fn(self, v)
+        return 'none'
+def f():
+    t = Table()
+    return Diff().run([1, 4, 9]), Twice().run([1, 2]), [(tag, fn(2)) for tag, fn in _REGISTRY], t.dispatch(3), t.dispatch('x'), t.dispatch(2.5)
 '''
 
 
